@@ -51,6 +51,15 @@ def _text(rng, n):
     return out
 
 
+def _row(rng, n):
+    """symbols of one row; n = length, (length, leading blanks) or {"a": .., "b": ..} for a row whose
+    text comes in two runs with an italics mid-row code between them (several text nodes in the reader)"""
+    if isinstance(n, dict):
+        return _chars(_text(rng, n["a"])) + [{"k": "MID", "i": True}] + _chars(_text(rng, n["b"])) + \
+            ([{"k": "MID", "i": False}] + _chars(_text(rng, n["c"])) if n.get("c") else [])
+    return _chars(_text(rng, n))
+
+
 def _chars(cps):
     syms = []
     for k in range(0, len(cps) - 1, 2):
@@ -72,7 +81,7 @@ def popon_stream(rng, buffers, adjacent):
         syms = [{"k": "ENM"}, {"k": "RCL"}]
         for r, n in zip(rows, lens):
             syms.append({"k": "PAC", "r": r, "c": 0, "i": False})
-            syms += _chars(_text(rng, n))
+            syms += _row(rng, n)
         syms.append({"k": "EOC"})
         lines.append({"tc": _tc(f), "drop": False, "syms": syms})
         f += 300
@@ -96,7 +105,7 @@ def roll_stream(rng, lens, depth, paint=False):
             syms.append({"k": "PAC", "r": 12 + len(lines) if len(lens) <= 4 else 1 + len(lines), "c": 0, "i": False})
         else:
             syms += [{"k": "CR"}, {"k": "PAC", "r": 15, "c": 0, "i": False}]
-        syms += _chars(_text(rng, n))
+        syms += _row(rng, n)
         lines.append({"tc": _tc(f), "drop": False, "syms": syms})
         f += 150
     lines.append({"tc": _tc(f), "drop": False, "syms": [{"k": "CR"}] if not paint else [{"k": "EDM"}]})
@@ -143,6 +152,23 @@ def inputs(ctx):
                 n += 1
                 ins.append({"id": "l%d" % n, "lines": roll_stream(rng, lens, 2, paint=True), "doubled": n % 2 == 0})
                 n += 1
+    # rows whose text is sent in several runs (mid-row italics in between): each run fits, the row does
+    # not; and the same rows read with simulate_roll_up=True in the modes the option does not touch
+    for rich in ({"a": 20, "b": 14}, {"a": 16, "b": 17}, {"a": 15, "b": 15}, {"a": 12, "b": 12, "c": 12}, {"a": 32, "b": 2}):
+        for lens in ([rich], [10, rich], [rich, 10], [rich, rich]):
+            for adjacent in (False, True):
+                ins.append({"id": "m%d" % n, "lines": popon_stream(rng, [list(lens)], adjacent), "doubled": n % 2 == 0})
+                n += 1
+            ins.append({"id": "m%d" % n, "lines": roll_stream(rng, lens, 2 + n % 3), "doubled": n % 2 == 0})
+            n += 1
+            ins.append({"id": "m%d" % n, "lines": roll_stream(rng, lens, 2, paint=True), "doubled": n % 2 == 0})
+            n += 1
+    for lens in ([33], [10, 40], [32, 33], [31], [{"a": 20, "b": 14}]):
+        for adjacent in (False, True):
+            ins.append({"id": "o%d" % n, "lines": popon_stream(rng, [list(lens)], adjacent), "doubled": n % 2 == 0, "sim": True})
+            n += 1
+        ins.append({"id": "o%d" % n, "lines": roll_stream(rng, lens, 2, paint=True), "doubled": n % 2 == 0, "sim": True})
+        n += 1
     for k in range(300 if ctx.quick else 15000):
         mode = rng.choice(["pop", "pop", "roll", "paint"])
         lens = [rng.choice([rng.randrange(0, 41), 31, 32, 33]) for _ in range(rng.randrange(1, 5))]
@@ -166,7 +192,7 @@ def execute(inp):
     text, abs_lines = sccgen.render_program(inp["lines"], inp["doubled"])
     obs = {"ok": False, "err": "", "named": [], "caps": []}
     try:
-        cs = pycaption.SCCReader().read(text)
+        cs = pycaption.SCCReader().read(text, simulate_roll_up=True) if inp.get("sim") else pycaption.SCCReader().read(text)
         obs["ok"] = True
         for c in cs.get_captions(cs.get_languages()[0]):
             obs["caps"].append([[ord(ch) for ch in ln] for ln in c.get_text().split("\n")])
